@@ -335,50 +335,50 @@ NOT_APPLICABLE = {}
 
 # what the second building session added to each check (appended to the level text; DESIGN.md section 12)
 ADDED = {
-    "C10": "Added: containers at the steps of the size prefix - 31|32|33|63|64|65 elements byte for byte through Wire!Enc, 8191 .. 2^20 elements as bigenc events held to the size-prefix law by Trace_Wire.",
-    "C07": "Added: I/O classes (missing source, missing reference directory, wrong extension, directory as source), one warning class per lint, 256 errors, a source listed twice.",
-    "C06": "Added: four spellings of the symbols (underscores, digits, mixed case), files without a final line break, five layout styles.",
-    "C05": "Added: alias loops through a dictionary key, tagged members as containment edges (wrappers 8 / 9), cross-module alias chains (MC_AliasChain).",
+    "C10": "Added: containers at the steps of the size prefix - 31|32|33|63|64|65 elements byte for byte through Wire!Enc, 8191 .. 2^20 elements as bigenc events held to the size-prefix law by Trace_Wire. Every EncodeInto implementation of a type writes the same bytes; long strings of multi-byte characters.",
+    "C07": "Added: I/O classes (missing source, missing reference directory, wrong extension, directory as source), one warning class per lint, 256 errors, a source listed twice. Class err_fileattr; replies with one-byte / wide-character paths; the second generated file in a sub-directory.",
+    "C06": "Added: four spellings of the symbols (underscores, digits, mixed case), files without a final line break, five layout styles. Deep expressions (parenthesised / negated compound groups, two levels; 2 000 x 8 valuations); MC_DocSplit (doc comments interrupted by directives keep their rows).",
+    "C05": "Added: alias loops through a dictionary key, tagged members as containment edges (wrappers 8 / 9), cross-module alias chains (MC_AliasChain). Twin modules with the same type names; wrappers inside wrappers (10-13).",
     "C01": "Time limits are on CPU time of the worker / process tree, so machine load does not turn into a verdict. Added: "
            "rule-family items (C04's families) and alias graphs as inputs, dense interface hierarchies to 40 interfaces, runs "
-           "of the binary without --dry-run and in both diagnostic formats.",
+           "of the binary without --dry-run and in both diagnostic formats. Family taken (definitions named like built-in types, in / outside a module); scale families aliasdouble / keydouble; directives with letters outside ASCII; module-less reference files in every binary run. Two further defects found and repaired, one recorded as open.",
     "C02": "Added: MC_AliasChain (alias chains across modules), MC_Collide arrangements through Trace_Repro, operation shapes "
            "with attributes, attribute-only files, ten escaped string spellings, '/*/' block comments. Attributes.tla + MC_AttrArgs: what an attribute's argument list means (reference vs the parse loops), every list <= 3 x bare / quoted x element compiled and the AST's attribute compared; block comments with inner slashes.",
     "C03": "Added: MC_TwoRefs (two references of one arrangement resolved in one compilation), nested modules that repeat "
-           "their parent's name (A::A), MC_Collide arrangements. The definition that holds the reference has a member named like the referenced type (own); alias chains with one directive at every link.",
+           "their parent's name (A::A), MC_Collide arrangements. The definition that holds the reference has a member named like the referenced type (own); alias chains with one directive at every link. MC_WrongKind (keywords, anonymous types and wrong kinds as base interfaces / underlying types); definitions named like built-in types.",
     "C04": "Added: Inheritance.tla (transitive closure vs the recursive closure of interface.rs, TLC on every hierarchy <= 4/5 "
            "interfaces, each compiled: E011 iff an inherited operation is redeclared, closure and operation lists equal), "
            "attribute-list family (E026 et al. on lists of attributes), enumerator-order family, and injections: one rule "
-           "violation injected into a well-formed simulate-mode program (MC_Syntax_inject) must be reported there too.",
+           "violation injected into a well-formed simulate-mode program (MC_Syntax_inject) must be reported there too. MC_AttrArgs (every argument list <= 3 of every directive); attribute target fileonly.",
     "C08": "Now 96 simulate-mode programs per quick run (1 500 thorough) incl. operation shapes with attributes and "
-           "attribute-only files.",
+           "attribute-only files. MC_AttrArgs programs; module-only files; foreign directives spelled like compiler directives.",
     "C09": "Added: comment_spans (every doc comment part of every generated comment lies within the comment's lines, tags "
            "start at their '@', link spans cover exactly the tag, identifiers exactly their spelling, comment lints point "
-           "into the comment) and MC_Notes (notes of a diagnostic each get their own correctly placed snippet).",
+           "into the comment) and MC_Notes (notes of a diagnostic each get their own correctly placed snippet). A doc comment's span starts at or after its slashes; tags behind nothing / blanks / a tab / a wide blank.",
     "C11": "Added: the generator-reply decoder of the binary driven through TLC-enumerated reply mutations (bad bool / level "
-           "/ UTF-8 / size at each field, cut after each field) validated by Trace_Driver. After every failed decode the decoder still stands inside its buffer (remaining() <= length, further reads give the buffer's bytes); every truncation / substitution of containers of 17 and 33 elements (MC_Wire_bigmut).",
+           "/ UTF-8 / size at each field, cut after each field) validated by Trace_Driver. After every failed decode the decoder still stands inside its buffer (remaining() <= length, further reads give the buffer's bytes); every truncation / substitution of containers of 17 and 33 elements (MC_Wire_bigmut). MC_Wire_dupkeys; replies with one-byte / wide-character paths, replies announcing a 2^62-byte path / 2^40-byte contents.",
     "C12": "Added: ReserveHuge (a reservation larger than the remaining space fails and changes nothing) and dirty spare "
            "capacities 1, 2, 3, 5 for the growable target. WriteForeign: a write through a reservation of another, longer target fails and changes nothing.",
     "C13": "Added: MC_ManyLints - ten lint sites in two files present at once under every suppression of at most two of "
            "them (TLC invariants RefEqOp, NonInterference, NoLeak): exactly the suppressed lints disappear, nothing leaks "
-           "to the twin file. The many-lints program through the real binary with a capturing generator: same exit status, request identical once the encoded allow attributes are cut out; errors stay errors.",
+           "to the twin file. The many-lints program through the real binary with a capturing generator: same exit status, request identical once the encoded allow attributes are cut out; errors stay errors. Three more IncorrectDocComment sites (@returns); MC_AttrArgs (an illegal argument of allow stays an error behind All).",
     "C14": "Added: MC_ManyLints_one in emit mode (the emitted records of a ten-site program under each suppression are "
            "exactly the non-suppressed diagnostics in order), a missing generator and a reference directory holding "
-           "non-Slice files in the binary runs. Second driver: CompilationState::emit_diagnostics (the library's own finish) in a child process, same trace specification.",
+           "non-Slice files in the binary runs. Second driver: CompilationState::emit_diagnostics (the library's own finish) in a child process, same trace specification. Expected notes come from the case (three notes with one text); programs with two equal notes and with non-ASCII text in front of spans; a working generator that reports a diagnostic.",
     "C15": "Added: interfaces used as bases across files, duplicated path spellings, seven generator arguments in the "
-           "repeated binary runs. Inheritance / alias / containment graphs (cyclic or not) with one node per file under every order and role assignment; the many-lints twin files under every file order; the binary with a file (also one that only declares its module) as source and as reference: same exit status and request size.",
+           "repeated binary runs. Inheritance / alias / containment graphs (cyclic or not) with one node per file under every order and role assignment; the many-lints twin files under every file order; the binary with a file (also one that only declares its module) as source and as reference: same exit status and request size. Doc comments and link targets in the per-file digests; files named alike at growing depth; MC_LinkFiles; attribute lists of four through repeated runs of the binary.",
     "C16": "Added: text before / after an inline link on neighbouring elements (what one comment holds does not change "
-           "another), textual links, a tag naming an identifier that fits no parameter.",
+           "another), textual links, a tag naming an identifier that fits no parameter. Position enfield (a field of an enumerator) and tags on struct fields.",
     "C17": "Added: the same file under three spellings (dir/./a.slice, link, absolute) in one list (MC_Files_dup3), "
-           "directories whose names end in .slice. Options come from the real command-line parser; paths with a comma; extensions in other letter cases.",
+           "directories whose names end in .slice. Options come from the real command-line parser; paths with a comma; extensions in other letter cases. Directories and files whose name starts with a dot; a link below a reference directory to a directory reachable otherwise.",
     "C18": "Added: behaviours okinfo / okwarn / oksource (replies carrying diagnostics of each level: exit status and stderr "
            "follow the level), replies broken at each field, generators killed mid-reply, a generator that closes stdin and "
            "floods stdout against a 4000-struct request (MC_DriverGen_flood), output directory states longer / shorter "
-           "(stale files), an error class with 256 diagnostics.",
-    "C19": "Added: a step through the binary - what each fake generator receives as arguments is what the parser returned. A generator listed twice is run once per -G, each time with the arguments written there.",
+           "(stale files), an error class with 256 diagnostics. hugestr / hugecontents / okshort / okwide; the second generated file in a sub-directory of the output directory.",
+    "C19": "Added: a step through the binary - what each fake generator receives as arguments is what the parser returned. A generator listed twice is run once per -G, each time with the arguments written there. Blanks written as eight different white-space characters.",
     "C20": "Added: Visitor.tla (PreOrder over an abstract tree, TLC: every node once, parents before children, sibling order "
            "kept, on every tree <= 6/7 nodes) is the definition Traversal instantiates, and Trace_Visitor validates the "
-           "recorded callback events of every program (one event per callback with file and tree position) against it. Alias chains across two modules: what a visitor is shown for a field typed by the first alias is the pre-order of the final type; files that only declare their module.",
+           "recorded callback events of every program (one event per callback with file and tree position) against it. Alias chains across two modules: what a visitor is shown for a field typed by the first alias is the pre-order of the final type; files that only declare their module. C03's MC_TwoRefs arrangements with the types a visitor is shown (VERIF_SCOPE_MODE=visit).",
 }
 
 if __name__ == "__main__":
